@@ -2,7 +2,7 @@
 """Apply a patch to a scratch copy of /repo and run checks against it.
 usage: selftest.py <patch.diff> C01 C02 ...      (prints one line per check: id rc first-finding-key)
 The scratch copy and its outputs live under /tmp and are removed afterwards."""
-import os, shutil, subprocess, sys, tempfile, json
+import os, shutil, subprocess, sys, tempfile, json, fcntl, time
 V = os.path.dirname(os.path.dirname(os.path.abspath(__file__)))
 
 
@@ -10,7 +10,15 @@ def run(patch, pids, keep=False, quiet=False):
     d = tempfile.mkdtemp(prefix="pfz-mut-")
     out = {}
     try:
-        subprocess.run(["git", "-C", "/repo", "worktree", "add", "--detach", "-f", d + "/repo", "HEAD"], check=True, capture_output=True)
+        with open("/tmp/pfz-worktree.lock", "w") as lk:
+            fcntl.flock(lk, fcntl.LOCK_EX)
+            for attempt in range(5):
+                r0 = subprocess.run(["git", "-C", "/repo", "worktree", "add", "--detach", "-f", d + "/repo", "HEAD"], capture_output=True, text=True)
+                if r0.returncode == 0:
+                    break
+                time.sleep(1 + attempt)
+            else:
+                raise RuntimeError("git worktree add failed: " + r0.stderr)
         repo = d + "/repo"
         if patch:
             r = subprocess.run(["git", "-C", repo, "apply", "--whitespace=nowarn", os.path.abspath(patch)], capture_output=True, text=True)
@@ -24,9 +32,11 @@ def run(patch, pids, keep=False, quiet=False):
             if not quiet:
                 print(pid, r.returncode, keys[:8], out[pid][2][-300:].replace("\n", " | "))
     finally:
-        subprocess.run(["git", "-C", "/repo", "worktree", "remove", "--force", d + "/repo"], capture_output=True)
-        shutil.rmtree(d, ignore_errors=True)
-        subprocess.run(["git", "-C", "/repo", "worktree", "prune"], capture_output=True)
+        with open("/tmp/pfz-worktree.lock", "w") as lk:
+            fcntl.flock(lk, fcntl.LOCK_EX)
+            subprocess.run(["git", "-C", "/repo", "worktree", "remove", "--force", d + "/repo"], capture_output=True)
+            shutil.rmtree(d, ignore_errors=True)
+            subprocess.run(["git", "-C", "/repo", "worktree", "prune"], capture_output=True)
     return out
 
 
